@@ -265,7 +265,20 @@ fn seq(ctx: &mut Ctx) {
                     let t = tags[0];
                     tags.push(t); // duplicate in one call
                 }
-                match r.below(10) {
+                match r.below(11) {
+                    10 => {
+                        // a rejected load changes nothing, the enabled set included
+                        let junk: &[u8] = match k {
+                            0 => b"",
+                            1 => b"\xd1\xd9\x3a\xaf\x01junk",
+                            2 => b"not a serialized engine",
+                            _ => b"\xd1\xd9\x3a\xaf\x00\xdc\x00\x13",
+                        };
+                        history.push(format!("deserialize(<{} junk bytes>) -> rejected", junk.len()));
+                        if e.deserialize(junk).is_ok() {
+                            viol.push(("C07:junk-buffer-accepted".into(), json!({"history": history})));
+                        }
+                    }
                     0..=2 => {
                         history.push(format!("use_tags({:?})", tags));
                         e.use_tags(&tags);
